@@ -18,7 +18,7 @@ import (
 func ExtractTimestamps(report llo.Report) (validAfterSeconds, observationTimestampSeconds uint32, err error) {
 	vas := report.ValidAfterNanoseconds / 1e9
 	ots := report.ObservationTimestampNanoseconds / 1e9
-	if vas > math.MaxUint32 {
+	if vas >= math.MaxUint32 {
 		err = fmt.Errorf("validAfterSeconds too large: %d", vas)
 		return
 	}
